@@ -417,6 +417,30 @@ def run_scenario(sc):
                         rec.setup()
                         return await _run_async(rec, ops, maxp)
                     hang = asyncio.run(main())
+                elif mode == "fresh":
+                    # prompt_toolkit.prompt()-style loop: a NEW PromptSession (Application, KeyProcessor,
+                    # Renderer) for every line on the same input; only the results are observed
+                    from prompt_toolkit import PromptSession
+                    for op in ops:
+                        if op[0] == "w":
+                            inp.send_text(op[1])
+                        elif op[0] == "close":
+                            inp.close()
+                        elif op[0] == "start" and len(rec.results) < maxp:
+                            try:
+                                r = [0, S(PromptSession().prompt())]
+                            except EOFError:
+                                r = [1]
+                            except Stuck:
+                                raise
+                            except KeyboardInterrupt:
+                                r = [2]
+                            except Exception as e:  # noqa
+                                r = [3, S(type(e).__name__ + ": " + str(e)[:60])]
+                            rec.results.append(r)
+                    out.update(labels=[], snaps=[], results=rec.results, handled=[], decoded=[], late_calls=[],
+                               hang=None, desync=None)
+                    return
                 else:
                     rec.setup()
                     th = None
@@ -463,9 +487,10 @@ TOK_BYTES = {
     "left": ["\x1b[D", "\x02"], "right": ["\x1b[C", "\x06"], "home": ["\x01", "\x1b[H"], "end": ["\x05", "\x1b[F"],
     "bs": ["\x7f"], "del": ["\x1b[3~"], "ctrl-d": ["\x04"], "bword": ["\x1bb"], "fword": ["\x1bf"],
     "kill": ["\x0b"], "discard": ["\x15"], "f1": ["\x1bOP"], "enter": ["\r"], "lf": ["\n"], "esc-enter": ["\x1b\r"], "ctrl-c": ["\x03"],
+    "ctrl-o": ["\x0f"], "esc-hash": ["\x1b#"],
 }
 # tokens whose byte string is two key presses of one binding (a report may arrive between them)
-TWO_KEY = ("bword", "fword", "esc-enter", "escq", "cxq", "quoted")
+TWO_KEY = ("bword", "fword", "esc-enter", "esc-hash", "escq", "cxq", "quoted")
 
 
 def tok_bytes(tok, rng=None):
@@ -534,8 +559,12 @@ def expected_results(tokens, closed=True):
             text, cur = text[cur:], 0
         elif k in ("f1", "cpr", "esc-flush"):
             pass
-        elif k in ("enter", "esc-enter", "lf"):
-            res.append([0, S(text)])
+        elif k in ("enter", "esc-enter", "lf", "ctrl-o"):
+            res.append([0, S(text)])      # c-o (operate-and-get-next) accepts the line too
+            text, cur = "", 0
+        elif k == "esc-hash":
+            # insert-comment: '#' in front of every line, then the line is accepted
+            res.append([0, S("\n".join("#" + l for l in text.splitlines()))])
             text, cur = "", 0
         elif k == "ctrl-c":
             res.append([2])
@@ -562,7 +591,7 @@ def oracle(sc, o):
         return bad
     is_cpr = rec.is_cpr
     nc = lambda l: [(rec.code(k), k.data) for k in l if k is not rec._Flush and not is_cpr(k)]  # noqa
-    # conservation at the end of the scenario and at every snapshot (sizes)
+    # conservation at the end of the scenario (a loss or duplication is permanent, so the end suffices)
     from prompt_toolkit.input import typeahead
     kp = rec.kproc
     left = list(kp.key_buffer) + list(typeahead._buffer[rec.inp.typeahead_hash()]) + list(kp.input_queue)
@@ -638,7 +667,7 @@ def rand_line(rng, allow_flush=False):
             toks.append(("quoted", rng.choice("ab\x01\x1b\r")))
         else:
             toks.append(("paste", "".join(rng.choice("pq r\x1b") for _ in range(rng.randint(0, 4)))))
-    toks.append((rng.choice(["enter", "enter", "lf", "lf", "esc-enter", "ctrl-c"]), 0))
+    toks.append((rng.choice(["enter", "enter", "enter", "lf", "lf", "lf", "esc-enter", "ctrl-c", "ctrl-o", "esc-hash"]), 0))
     return toks
 
 
@@ -753,6 +782,9 @@ HAND = [
     # line feed accepts like carriage return (C-j feeds a ControlM to the FRONT of the queue)
     [("c", "o"), ("c", "n"), ("c", "e"), ("lf", 0), ("c", "t"), ("c", "w"), ("c", "o"), ("lf", 0), ("c", "t"), ("lf", 0)],
     [("c", "a"), ("lf", 0), ("c", "b"), ("bword", 0), ("c", "X"), ("enter", 0), ("cpr", 2, 2), ("c", "c"), ("lf", 0), ("lf", 0), ("c", "d"), ("esc-enter", 0)],
+    # the other accepting bindings of the default table: c-o (operate-and-get-next), ESC # (insert-comment)
+    [("c", "a"), ("ctrl-o", 0), ("c", "b"), ("enter", 0), ("c", "c"), ("esc-hash", 0), ("esc-hash", 0), ("c", "d"), ("ctrl-o", 0), ("ctrl-o", 0)],
+    [("c", "x"), ("quoted", "\r"), ("c", "y"), ("esc-hash", 0), ("c", "z"), ("split", ("esc-hash", 0), ("cpr", 7, 7)), ("c", "w"), ("lf", 0)],
 ]
 
 
@@ -799,6 +831,14 @@ def gen_scenarios(chk):
         ops.append(["close"])
         ops += [["start"], ["wait"]] * 4
         add("exhaustive-chunking", {"rcpr": 0, "mode": "async", "ops": ops, "tokens": [list(t) for t in small], "maxp": 3})
+    # a new PromptSession per line (what prompt_toolkit.prompt() in a loop does): results only
+    nfresh = 120 if thorough else 12
+    for _ in range(nfresh):
+        toks = rand_script(rng, rng.randint(2, 4))
+        n = len(expected_results(toks))
+        sc = mk_sync(toks, bytes_of(toks), n)
+        sc["mode"] = "fresh"
+        add("fresh-session-per-prompt", sc)
     nrand = 1500 if thorough else 170
     for _ in range(nrand):
         toks = rand_script(rng)
@@ -987,7 +1027,7 @@ def main(tier):
             hangs += 1
         if o.get("desync"):
             chk.note("harness: " + o["desync"])
-        if sc["mode"] == "thread":
+        if sc["mode"] in ("thread", "fresh"):
             # chunking decided by the OS: results only; the model runs the all-at-once delivery
             labels = [[L_WRITE, S(all_bytes(sc))], [L_CLOSE]]
             for r in o["results"]:
@@ -995,10 +1035,10 @@ def main(tier):
             cases.append([flags_of(sc), labels, 1])
             impl_results.append([o["results"]])
         else:
-            # a misapplied key (known findings) can reach a handler outside the 19 modelled
+            # a misapplied key (known findings) can reach a handler outside the 22 modelled
             # classes: the model cannot follow from there on, the comparison stops before that label
             labels, snaps = o["labels"], o["snaps"]
-            cutj = next((j for j, sn in enumerate(snaps) if any(ev[0] == 1 and ev[2] in (98, 99) for ev in sn[10])), None)
+            cutj = next((j for j, sn in enumerate(snaps) if any(ev[0] == 1 and ev[2] in (97, 98, 99) for ev in sn[10])), None)
             if cutj is not None:
                 labels, snaps = labels[:cutj], snaps[:cutj]
                 truncated += 1
@@ -1076,8 +1116,10 @@ def main(tier):
                             "identical snapshots; writer-thread scenarios compare per-prompt results only; non-trivial = at least two prompts "
                             "returned and one of them a line; distinct by hash of the scenario")
     chk.assumptions += [
-        "emacs editing mode, single-line text, default buffer focused; handlers outside the 19 modelled effect classes are not exercised",
-        "bytes are code points: chunk boundaries fall between characters (UTF-8 splitting is C03's pipe correspondence)",
+        "emacs editing mode, default buffer focused; 22 modelled handler classes (incl. every binding of the default table that ends the prompt: Enter, ESC Enter, c-c, c-d, c-o, ESC #); handlers of classes 97/98/99 (call-last-kbd-macro, mouse scroll, history, completion ...) are modelled as inert and never generated; the snapshot comparison stops at the first such handler call the implementation makes",
+        "reports cut into the byte sequence of a single key (family cpr-inside-a-key-sequence) are exempt from the script and the report-never-text clauses (such a report can land inside a bracketed paste); model/implementation agreement and conservation are still required",
+        "one PromptSession is reused for all prompts of a scenario, except in the family fresh-session-per-prompt (results only)",
+        "the model's pipe holds code points; the family utf8-split-inside-characters writes BYTES cut inside multi-byte characters and labels each write with the characters it completes (the UTF-8 decoder itself is C03's model; Props/C17.v also instantiates the script theorem over it)",
         "timeouts are labels: ttimeoutlen/timeoutlen are set to 10 ms by the harness where a flush is wanted and to 1000 s/None elsewhere; "
         "Renderer.wait_for_cpr_responses is called with timeout 0.05 s instead of 1 s; Renderer.CPR_TIMEOUT is 1000 s",
         "the renderer's decision to ask for a cursor position report is an environment label (observed), not modelled",
@@ -1134,9 +1176,9 @@ def replay(data):
     for what, tags, detail in oracle(sc, o):
         print("ORACLE FAILS: %s %r" % (what, tags))
         rc = 1
-    if sc["mode"] != "thread":
+    if sc["mode"] not in ("thread", "fresh"):
         labels, snaps = o["labels"], o["snaps"]
-        cutj = next((j for j, sn in enumerate(snaps) if any(ev[0] == 1 and ev[2] in (98, 99) for ev in sn[10])), None)
+        cutj = next((j for j, sn in enumerate(snaps) if any(ev[0] == 1 and ev[2] in (97, 98, 99) for ev in sn[10])), None)
         if cutj is not None:
             print("a handler outside the modelled classes is reached at label %d; the model is compared up to there" % cutj)
             labels, snaps = labels[:cutj], snaps[:cutj]
